@@ -202,7 +202,7 @@ pub fn run(ctx: &Ctx) -> Report {
                 .status();
             rep.evaluations += 1;
             match st {
-                Ok(s) if s.success() => deepest_ok = depth,
+                Ok(s) if s.success() || s.code() == Some(3) => deepest_ok = depth,
                 Ok(s) => {
                     rep.count(&format!("nesting-{kind}-dies-at-{depth}"));
                     if depth <= 500 {
